@@ -52,6 +52,11 @@ def gen_case(seed, tier, idx):
     dtype = "float32" if rs.random() < 0.25 else "float64"
     t0 = rs.choice([0.0, 0.0, 0.3, -1.0, 2.5])
     dt = rs.choice([0.1, 0.05, 0.01, 0.25, 0.037, 1 / 3])
+    if rs.random() < 0.12:
+        # a time origin far from zero relative to the step (|t| * 1e-5 >= dt): relative closeness tests on times
+        # (isclose with its default rtol) then span whole steps  (added after C13-isclose_final_snap, wave 5)
+        t0 = rs.choice([1000.0, -1000.0, 4096.0])
+        dt = rs.choice([0.01, 0.005, 0.0078125])
     n = rs.choice([2, 3, 5, 8, 13, 25, 40])
     frac = rs.choice([0.0, 0.0, 0.5, 0.9, 1e-9])
     omit_dt = rs.random() < 0.05
